@@ -149,6 +149,9 @@ func (l *lane) runSet(set []*Exchange, o execOpts, count bool) bool {
 	w := l.w
 	var wg sync.WaitGroup
 	sem := make(chan struct{}, 384)
+	// datagram transports have no flow control: a burst overflows the listener's backlog (gosrt: 128 packets) and the
+	// packet would be dropped unseen, so they are delivered with a small concurrency
+	semUDP := make(chan struct{}, 40)
 	udpLike := false
 	var cmu sync.Mutex
 	local := map[string]int{}
@@ -166,14 +169,16 @@ func (l *lane) runSet(set []*Exchange, o execOpts, count bool) bool {
 		if !w.alive() {
 			break
 		}
+		mySem := sem
 		if e.Seed.Transport != tTCP && e.Seed.Transport != tTLS {
 			udpLike = true
+			mySem = semUDP
 		}
-		sem <- struct{}{}
+		mySem <- struct{}{}
 		wg.Add(1)
 		go func(e *Exchange) {
 			defer wg.Done()
-			defer func() { <-sem }()
+			defer func() { <-mySem }()
 			cl := runExchange(e, w.ports, o)
 			if count {
 				cmu.Lock()
